@@ -52,7 +52,14 @@ Seeds == <<
     "2020-03-14\n    22:00 - ? x\r\n        more\n\n2020-03-15\r\n\t9:00 - ?\n\t\tnote\r\n",
     "2020-03-15\n    8:00 - ???????????? long placeholder\n    -1h59m pause\n\n2020-03-16\n    1h\n",
     "2020-03-15\n    8:00 - ?  \n",
-    "2020-03-15\n    8:00 - ? Meeting   \n        more  \n    -5m \n"
+    "2020-03-15\n    8:00 - ? Meeting   \n        more  \n    -5m \n",
+    (* a longer file (several records per worker of the parallel parser), headlines followed by blanks *)
+    "2020-03-06 \n    1h\n\n2020-03-07 (7h30m!)\t\nSummary\n    8:00 - 9:00\n\n2020-03-08\n    2h #a\n        more\n\n\n2020-03-09\n    30m\n\n"
+        \o "2020-03-10\n    8:00-8:30\n    1h\n\n2020-03-11  \n    -10m\n\n2020-03-12\n    9:00 - 10:00 x\n\n2020-03-13\n    1h\n\n"
+        \o "2020-03-14 (8h!)\n    22:00 - ?\n\n2020-03-15 \t\n    8:00 - ? work #w\n    -15m break\n\n2020-03-16\n    1h\n\n2020-03-17\n    2h\n",
+    (* a point-in-time range before the open range; a closed range in another notation before the open range *)
+    "2020-03-14\n    7:00 - 7:00\n    7:30 - 8:00\n\n2020-03-15\n    7:00 - 7:00\n    8:00 - ?\n",
+    "2020-03-15\n    8:00 - 9:00\n    10:00am-??? x\n"
 >>
 NSeeds == Len(Seeds)
 
@@ -96,6 +103,11 @@ PauseCmds ==
           s \in {<<>>, <<"break">>}, nt \in BOOLEAN}
     \cup {[C("pause") EXCEPT !.extend = TRUE, !.ticks = tk] : tk \in {<<>>, <<59>>, <<60, 300>>, <<120, 30>>}}
     \cup {[C("pause") EXCEPT !.extend = TRUE, !.summary = <<"x">>]}
+    (* the environment appends to the file while the pause sleeps (every iteration re-reads the file) *)
+    \cup {[C("pause") EXCEPT !.ticks = tk, !.edits = ed, !.extend = ex]
+            : tk \in {<<60, 125, 3600>>, <<30, 45>>}, ex \in BOOLEAN,
+              ed \in {<<"2099-01-01\n\t5m ext\n">>, <<"", "2099-01-01\n    1h\n    2h\n", "2099-01-02">>,
+                      <<"2099-01-01\r\n  8:00 - ? #ext\r\n", "2099-01-02 (8h!)\n">>}}
 
 AllCmds == TrackCmds \cup StartCmds \cup StopCmds \cup SwitchCmds \cup CreateCmds \cup PauseCmds
 (* a smaller pool for histories *)
@@ -113,7 +125,10 @@ HistCmds == {[C("track") EXCEPT !.entry = <<"1h">>], [C("track") EXCEPT !.entry 
 (* Clock mode (C17): layouts of open ranges around "today", for several     *)
 (* kinds of days; seed = 10 * layout + day                                  *)
 (***************************************************************************)
-Days == <<Ord(2020, 3, 15), Ord(2020, 2, 29), Ord(2021, 3, 1), Ord(2020, 12, 31), Ord(2021, 1, 1)>>
+(* the last two run in a zone with daylight saving time (Europe/Berlin): a day of 25 hours, and the day *)
+(* after one of 23 hours - "yesterday" and "tomorrow" are calendar days, not 24 hours away               *)
+Days == <<Ord(2020, 3, 15), Ord(2020, 2, 29), Ord(2021, 3, 1), Ord(2020, 12, 31), Ord(2021, 1, 1), Ord(2020, 10, 25), Ord(2020, 3, 30)>>
+ClockZone(s) == IF Mode = "clock" /\ (s % 10) >= 5 THEN "Europe/Berlin" ELSE ""
 DayOf(s) == Days[(s % 10) + 1]
 D(o) == FormatDate(o, TRUE)
 ClockSeed(s) ==
@@ -164,9 +179,10 @@ CfgText(cfg) ==
 
 Step(c, now, cfg, pred, before) ==
     [args |-> ToArgs(c), now |-> Stamp(now, 0), ticks |-> [j \in 1..Len(c.ticks) |-> Stamp(now, c.ticks[j])],
+     edits |-> [j \in 1..Len(c.ticks) |-> EditAt(c, j)],
      cmd |-> c, nowv |-> now, cfgv |-> cfg, pred |-> pred, predpre |-> before]
 NoFile(s) == SeedText(s) = "<<no such file>>"
-CaseOf(s, h) == [kind |-> "cli", files |-> IF NoFile(s) THEN ("other.klg" :> "2020-03-15\n    1h\n") ELSE ("f.klg" :> SeedText(s)), cfg |-> CfgText(h[1].cfgv), parse |-> TRUE,
+CaseOf(s, h) == [kind |-> "cli", files |-> IF NoFile(s) THEN ("other.klg" :> "2020-03-15\n    1h\n") ELSE ("f.klg" :> SeedText(s)), cfg |-> CfgText(h[1].cfgv), parse |-> TRUE, tz |-> ClockZone(s),
                  repeat |-> IF Mode = "clock" THEN 1 ELSE IF Full THEN 3 ELSE 2, cmds |-> h]
 
 (***************************************************************************)
@@ -207,9 +223,9 @@ Pool(k) == IF Mode = "single" THEN AllCmds ELSE IF Mode = "clock" THEN ClockCmds
            ELSE IF Mode = "triples" /\ ~Full /\ k > 0 THEN {c \in HistCmds : (CmdHash(c) + SeedN + k) % 2 = 0}
            ELSE HistCmds
 SeedSet == IF Mode = "single" THEN 1..NSeeds
-           ELSE IF Mode = "clock" THEN {10 * lay + d : lay \in 0..5, d \in 0..4}
-           ELSE IF Mode = "pairs" THEN {3, 4, 5, 7, 10, 12, 17, 22, 24}
-           ELSE IF Mode = "long" THEN {1, 4, 7, 8, 11, 13, 22, 23}
+           ELSE IF Mode = "clock" THEN {10 * lay + d : lay \in 0..5, d \in 0..6}
+           ELSE IF Mode = "pairs" THEN {3, 4, 5, 7, 10, 12, 17, 22, 24, 32, 33, 34}
+           ELSE IF Mode = "long" THEN {1, 4, 7, 8, 11, 13, 22, 23, 32}
            ELSE {3 + (SeedN % 3), 22}
 
 Data(text) == LET p == ParseDoc(text) IN IF p.ok /\ text # "<<no such file>>" THEN DocData(p) ELSE <<>>
@@ -232,7 +248,7 @@ CfgSh == [Cfg0 EXCEPT !.should = "8h!"]
 ClockPick(minute, c, s) ==    \* quick tier: per minute one rounding (rotating) and, per command, two layouts
     Full \/ (/\ c.round = ClockRoundings[((minute + SeedN) % 8) + 1]
              /\ (s \div 10) \in {(minute + SeedN) % 6, (minute + 3 + SeedN) % 6}
-             /\ (s % 10) = (minute + SeedN) % 5)
+             /\ (s % 10) = (minute + SeedN) % 7)
 Variants(c, k) ==
     IF Mode = "clock"
     THEN {<<[ord |-> DayOf(seed), min |-> m, sec |-> (m * 7) % 60], IF c.round = 0 /\ m % 2 = 0 THEN Cfg0 ELSE Cfg0>>
@@ -247,7 +263,8 @@ Variants(c, k) ==
 Next == /\ Len(hist) < Depth
         /\ \E c \in Pool(Len(hist)) : \E v \in Variants(c, Len(hist)) :
               LET now == v[1]  cfg == v[2]
-                  x == IF ok THEN ExecText(c, file, now, cfg) ELSE [st |-> "unspec", text |-> file]
+                  x0 == IF ok THEN ExecText(c, file, now, cfg) ELSE [st |-> "unspec", text |-> file]
+                  x == IF x0.st = "ok" THEN [x0 EXCEPT !.text = ExtAppendAll(@, c, Len(c.ticks))] ELSE x0
               IN  /\ hist' = Append(hist, Step(c, now, cfg, x, file))
                   /\ file' = x.text
                   /\ R' = IF ok THEN Data(x.text) ELSE R
@@ -276,11 +293,15 @@ StepOK == [][\/ Len(hist') = Len(hist)
                     m == Model(c, R, LastStep.nowv, LastStep.cfgv)
                     x == LastStep.pred
                     PP == ParseDoc(file)
-                IN  /\ m.st = "ok" => x.st = "ok" /\ EffectOK(m, R, R') /\ (Sorted(R) => Sorted(R'))
+                    (* the command's own effect: the state without what the environment appended meanwhile *)
+                    own == IF c.edits = <<>> THEN file' ELSE ExecText(c, file, LastStep.nowv, LastStep.cfgv).text
+                    Rown == IF c.edits = <<>> THEN R' ELSE Data(own)
+                IN  /\ m.st = "ok" => x.st = "ok" /\ EffectOK(m, R, Rown) /\ (Sorted(R) => Sorted(Rown))
                     /\ m.st = "fail" => x.st = "fail" /\ file' = file
                     /\ x.st = "ok" /\ m.st = "ok" =>
-                          /\ FrameOK(c, m, PP, PP.lines, SplitLines(file'))
-                          /\ StyleOK(c, LastStep.cfgv, m, PP, PP.lines, SplitLines(file'))
-                          /\ ParseDoc(file').ok]_vars
+                          /\ FrameOK(c, m, PP, PP.lines, SplitLines(own))
+                          /\ StyleOK(c, LastStep.cfgv, m, PP, PP.lines, SplitLines(own))
+                          /\ ParseDoc(file').ok
+                          /\ file' = ExtAppendAll(own, c, Len(c.ticks))]_vars
 FileValid == ok => ParseDoc(file).status # "Violating"
 =============================================================================
